@@ -577,20 +577,58 @@ theorem evGithub_props (st : State) (snap : Snapshot) :
   obtain ⟨p, hp, hps, e4, e5⟩ := h1.2 p' hp' (e3 ▸ hs)
   exact ⟨p, hp, hps, e1.trans e4, e2.trans e5⟩
 
-theorem evGithubPartial_props (st : State) (snap : Snapshot) (n : Nat) :
-    Refines st (evGithubPartial st snap n) ∧ (evGithubPartial st snap n).prs.map (·.number) = snap.prs.map (·.number) ∧
-    (evGithubPartial st snap n).svc = st.svc := by
+theorem updateReview_fields (p : PR) (s : PRSnap) :
+    (p.updateReview s).1.number = p.number ∧ (p.updateReview s).1.sourceSha = p.sourceSha ∧
+    (p.updateReview s).1.batch = p.batch ∧ (p.updateReview s).1.buildState = p.buildState := by
+  unfold PR.updateReview
+  simp only
+  split <;> simp
+
+theorem evGithubPartial_props (st : State) (snap : Snapshot) (n : Nat) (rv : Bool) :
+    Refines st (evGithubPartial st snap n rv) ∧ (evGithubPartial st snap n rv).prs.map (·.number) = snap.prs.map (·.number) ∧
+    (evGithubPartial st snap n rv).svc = st.svc := by
   unfold evGithubPartial
   simp only
   have h1 := refreshPRs_props st.prs snap.prs
   have h2 := updateGithubAll_props ((refreshPRs st.prs snap.prs).1.take n) (snap.prs.take n)
+  -- the tail: unchanged, or its head with the review decision taken over
+  have h3 : ∀ (l : List PR) (ss : List PRSnap),
+      (reviewHead rv l ss).1.map (·.number) = l.map (·.number) ∧
+      ∀ q ∈ (reviewHead rv l ss).1, ∃ p ∈ l, q.sourceSha = p.sourceSha ∧ q.batch = p.batch ∧ q.buildState = p.buildState := by
+    intro l ss
+    cases l with
+    | nil => simp [reviewHead]
+    | cons p rest =>
+      cases ss with
+      | nil => exact ⟨rfl, fun q hq => ⟨q, hq, rfl, rfl, rfl⟩⟩
+      | cons s0 _ =>
+        cases rv with
+        | false => exact ⟨rfl, fun q hq => ⟨q, hq, rfl, rfl, rfl⟩⟩
+        | true =>
+          have f := updateReview_fields p s0
+          refine ⟨by simp [reviewHead, f.1], fun q hq => ?_⟩
+          simp only [reviewHead, ↓reduceIte, List.mem_cons] at hq
+          rcases hq with rfl | hq
+          · exact ⟨p, List.mem_cons_self, f.2.1, f.2.2.1, f.2.2.2⟩
+          · exact ⟨q, List.mem_cons_of_mem _ hq, rfl, rfl, rfl⟩
+  have h3' := h3 ((refreshPRs st.prs snap.prs).1.drop n) (snap.prs.drop n)
   refine ⟨⟨SvcExt.refl _, fun q hq hs => ?_⟩, ?_, by triv⟩
   · rcases List.mem_append.1 hq with hq | hq
     · obtain ⟨p', hp', e1, e2, e3⟩ := h2.2 q hq
       obtain ⟨p, hp, hps, e4, e5⟩ := h1.2 p' (List.mem_of_mem_take hp') (e3 ▸ hs)
       exact ⟨p, hp, hps, e1.trans e4, e2.trans e5⟩
-    · exact h1.2 q (List.mem_of_mem_drop hq) hs
-  · rw [List.map_append, h2.1, ← List.map_append, List.take_append_drop, h1.1]
+    · obtain ⟨p', hp', e1, e2, e3⟩ := h3'.2 q hq
+      obtain ⟨p, hp, hps, e4, e5⟩ := h1.2 p' (List.mem_of_mem_drop hp') (e3 ▸ hs)
+      exact ⟨p, hp, hps, e1.trans e4, e2.trans e5⟩
+  · rw [List.map_append, h2.1, h3'.1, ← List.map_append, List.take_append_drop, h1.1]
+
+theorem evGithubAny_props (st : State) (snap : Snapshot) :
+    Refines st (evGithubAny st snap) ∧ (evGithubAny st snap).prs.map (·.number) = snap.prs.map (·.number) ∧
+    (evGithubAny st snap).svc = st.svc := by
+  unfold evGithubAny
+  split
+  · exact evGithub_props st snap
+  · exact evGithubPartial_props st snap _ true
 
 theorem updateBatch_number (fix : Bool) (p : PR) (svc : List BatchRec) :
     (p.updateBatch fix svc).1.number = p.number ∧ (p.updateBatch fix svc).1.sourceSha = p.sourceSha := by
@@ -652,8 +690,8 @@ theorem step_numsOK (fix : Bool) (st : State) (e : Event) (hw : e.wf) (h : NumsO
   | flag f => cases f <;> exact h
   | batchFailed => exact h
   | githubFailed => exact h
-  | githubPartial s n => unfold NumsOK step; simp only; rw [(evGithubPartial_props st s n).2.1]; exact hw
-  | github s => unfold NumsOK step; simp only; rw [(evGithub_props st s).2.1]; exact hw
+  | githubPartial s n => unfold NumsOK step; simp only; rw [(evGithubPartial_props st s n false).2.1]; exact hw
+  | github s => unfold NumsOK step; simp only; rw [(evGithubAny_props st s).2.1]; exact hw
   | batch => unfold NumsOK step; simp only; rw [(evBatch_numbers fix st).1]; exact h
   | heal a => unfold NumsOK step; simp only; rw [(evHeal_props st a).2]; exact h
   | done id ok => unfold NumsOK step; simp only; rw [(evDone_props st id ok).2.1]; exact h
@@ -712,8 +750,8 @@ theorem invQ_step {Q : PR → List BatchRec → Prop} (fix : Bool) (hQ : GoodQ Q
   | flag f => cases f <;> exact hi
   | batchFailed => exact hi
   | githubFailed => exact hi
-  | githubPartial s n => exact invQ_refines hQ (evGithubPartial_props st s n).1 hi
-  | github s => exact invQ_refines hQ (evGithub_props st s).1 hi
+  | githubPartial s n => exact invQ_refines hQ (evGithubPartial_props st s n false).1 hi
+  | github s => exact invQ_refines hQ (evGithubAny_props st s).1 hi
   | heal a => exact invQ_refines hQ (evHeal_props st a).1 hi
   | done id ok => exact invQ_refines hQ (evDone_props st id ok).1 hi
   | batch =>
